@@ -145,6 +145,17 @@ def run_one(ck, prog):
                 return any(f[0] == "cmp" and f[1] == "Eq" and ((fold(f[3]) == 1 and mentions(f[2], ctx.prov, lambda z: z[0] == "field" and z[2] == fld)) or (fold(f[2]) == 1 and mentions(f[3], ctx.prov, lambda z: z[0] == "field" and z[2] == fld))) for f in facts)
             ck.ob("C16.1", "descriptors-only-from-an-scm-rights-header|level", tested("cmsg_level"), fn=it[0]["path"], site=ctx.site(yb), detail="ScmRights may be produced only under cmsg_level == SOL_SOCKET (1)")
             ck.ob("C16.1", "descriptors-only-from-an-scm-rights-header|type", tested("cmsg_type"), fn=it[0]["path"], site=ctx.site(yb), detail="ScmRights may be produced only under cmsg_type == SCM_RIGHTS (1); other socket-level ancillary data would be decoded as descriptors that were never passed")
+        # ... and a message of another kind is SKIPPED, not the end: the iteration answers None only for want of a further header. With
+        # SO_PASSCRED on the receiver the kernel puts the credentials message first; ending there never delivers the descriptors behind it
+        kind_edges = [e for sb in ctx.cfg.live_blocks() if ctx.cfg.term(sb)["k"] == "switch" for e in ctx.cfg.succ[sb]
+                      if any(f[0] == "cmp" and any(mentions(x, ctx.prov, lambda z: z[0] == "field" and z[2] in ("cmsg_type", "cmsg_level")) for x in (f[2], f[3]) if isinstance(x, tuple)) for f in ctx.edge_facts(e))]
+        again = {bb for bb, t in ctx.cfg.calls(lambda t: (t.get("callee") or "").endswith("Iterator>::next") or (t.get("resolved") or "").endswith("Iterator>::next"))} | ctx.cfg.cycle_blocks()
+        none_blocks = {b["id"] for b in it[0]["blocks"] if b["id"] in ctx.cfg.live_blocks() and not b.get("cleanup") and
+                       any(st["k"] == "assign" and st["dst"]["l"] == 0 and not st["dst"].get("p") and st["rv"]["k"] == "agg" and st["rv"].get("variant") == "None" for st in b["stmts"])}
+        ends = [e for e in kind_edges if none_blocks & ctx.cfg.reachable_from(e.dst, avoid=again)]
+        ck.floor("C16.1", "edges testing the kind of a control message", len(kind_edges), 2)
+        ck.ob("C16.1", "other-kinds-of-message-are-skipped-not-the-end", not ends, fn=it[0]["path"], site=ctx.site(ends[0].src) if ends else None,
+              detail="the iterator answers None right after testing cmsg_type / cmsg_level: a message that is not SCM_RIGHTS must be stepped over (the next header examined), descriptors behind it are otherwise never delivered")
 
     # a length read out of the buffer (cmsg_len, written by the kernel or the peer) is never subtracted from what is left: `left - len`
     # wraps when the padded length exceeds the rest (a truncated control buffer), and the "is there room" test then says yes. The bound
